@@ -357,6 +357,10 @@ class TWorld(object):
     from scales.observable import Observable
     from scales.sink import ClientMessageSinkStack
     op = self.ops.pop(0)
+    if op[0] == 'open':
+      # Open() again on a transport that is already open (a second owner, or a caller making sure it is ready): idempotent
+      gevent.spawn(lambda: self.sink.Open().wait())
+      return
     if op[0] in ('block', 'unblock'):
       # scripted back-pressure: the connection's send buffer is full from here on / drains
       c = self.live_conn()
@@ -480,6 +484,10 @@ def scenarios(tier):
   out.append(('4 requests, 2 with deadlines; the peer acknowledges discards (Rdiscarded)',
               {'ops': [['req', 'a', True], ['req', 'b', True], ['req', 'c'], ['req', 'd']], 'max_adversarial': 0,
                'peer_script': {'ack_discards': True}}))
+  out.append(('send buffer full, a request with a deadline queued BEHIND another queued request, then it drains; one more request',
+              {'ops': [['block'], ['req', 'x'], ['req', 'b'], ['req', 'a', True], ['unblock'], ['req', 'c']], 'max_adversarial': 1, '_bound': 2}))
+  out.append(('Open() called again while a request is unanswered',
+              {'ops': [['req', 'a', True], ['open'], ['req', 'b'], ['req', 'c']], 'max_adversarial': 0, '_bound': 2}))
   out.append(('send buffer full while 3 requests queue up, then drains; one more request',
               {'ops': [['block'], ['req', 'x'], ['req', 'a', True], ['req', 'b'], ['unblock'], ['req', 'c']], 'max_adversarial': 1}))
   # tags beyond 16 bits: the counter jumps as if the tags in between were held by requests that were never answered
